@@ -185,6 +185,17 @@ func vhHost(rec *[]int, a, b int) map[string]interface{} {
 			return t
 		},
 		"SetKey": func(m map[string]int, k string, v int) { m[k] = v },
+		"ScaleAll": func(k int, xs ...int) {
+			for j := range xs {
+				xs[j] *= k
+			}
+		},
+		"VarShape": func(xs ...int) int {
+			if xs == nil {
+				return -1
+			}
+			return len(xs)*10 + cap(xs)
+		},
 		"Var": func(base int, xs ...int) int {
 			t := base*100 + len(xs)
 			for _, x := range xs {
@@ -230,6 +241,22 @@ func vhHost(rec *[]int, a, b int) map[string]interface{} {
 			}
 			return v
 		},
+		// what the fmt print functions do with their operands: an error is asked for Error(),
+		// else a Stringer for String(); reached with the composed-interface list of fmt.Println
+		"Show": func(args ...interface{}) {
+			for _, x := range args {
+				switch v := x.(type) {
+				case error:
+					out(1000 + len(v.Error()))
+				case fmt.Stringer:
+					out(2000 + len(v.String()))
+				case int:
+					out(v)
+				default:
+					out(-1)
+				}
+			}
+		},
 		"Write": func(w io.Writer) {
 			n, err := w.Write([]byte{1, 2, 3})
 			out(n)
@@ -250,6 +277,21 @@ func (s *vhSink) Write(p []byte) (int, error) {
 	return len(p), nil
 }
 
+// vhPropNum is the number of the property the corpus belongs to (names of known findings).
+var vhPropNum = 1
+
+func vhFindingPrefix() string {
+	switch vhPropNum {
+	case 5:
+		return "C05.e2e."
+	case 7:
+		return "C07.e2e."
+	case 11:
+		return "C11.e2e."
+	}
+	return "C01.e2e."
+}
+
 func vh_E2E() {
 	vhResetClock()
 	vhStopAt = -1
@@ -263,6 +305,8 @@ func vh_E2E() {
 	for k, fn := range vhHost(&got, a, b) {
 		hostTab[k] = reflect.ValueOf(fn)
 	}
+	// host.Show is treated as the fmt print functions are: same list of interfaces to wrap operands for
+	i.mapTypes[hostTab["Show"]] = stdlib.MapTypes[reflect.ValueOf(fmt.Println)]
 	hostTab["Pair"] = reflect.ValueOf((*ht.Pair)(nil))
 	hostTab["Grid"] = reflect.ValueOf((*ht.Grid)(nil))
 	hostTab["Named"] = reflect.ValueOf((*ht.Named)(nil))
@@ -308,33 +352,57 @@ func vh_E2E() {
 			keys = append(keys, k)
 		}
 		sort.Strings(keys)
+		// first the variables: read through Symbols, then read and written through Globals
+		for _, k := range keys {
+			tf, isVar := ex[k].(*int)
+			if !isVar {
+				continue
+			}
+			sv, found := syms[k]
+			want = append(want, *tf)
+			if found && sv.Kind() == reflect.Int {
+				got = append(got, int(sv.Int()))
+			}
+			*tf += 5
+			want = append(want, *tf)
+			if gv, ok := i.Globals()[k]; ok && gv.Kind() == reflect.Int {
+				gv.SetInt(gv.Int() + 5)
+				got = append(got, int(gv.Int()))
+			}
+		}
+		// then the functions, called natively (they see the values the host wrote)
 		for _, k := range keys {
 			sv, found := syms[k]
 			if !found {
 				got = append(got, -424242)
+				continue
 			}
 			switch tf := ex[k].(type) {
 			case func(int) int:
 				want = append(want, tf(a), tf(b))
-				if f, ok := sv.Interface().(func(int) int); found && ok {
+				if f, ok := sv.Interface().(func(int) int); ok {
 					got = append(got, f(a), f(b))
 				}
 			case func(int, int) int:
 				want = append(want, tf(a, b), tf(b, 1))
-				if f, ok := sv.Interface().(func(int, int) int); found && ok {
+				if f, ok := sv.Interface().(func(int, int) int); ok {
 					got = append(got, f(a, b), f(b, 1))
 				}
-			case *int:
+			}
+		}
+		// and the variables again, as the functions left them
+		for _, k := range keys {
+			if tf, isVar := ex[k].(*int); isVar {
 				want = append(want, *tf)
-				if found && sv.Kind() == reflect.Int {
-					got = append(got, int(sv.Int()))
+				if gv, ok := i.Globals()[k]; ok && gv.Kind() == reflect.Int {
+					got = append(got, int(gv.Int()))
 				}
 			}
 		}
 	}
 	// a program recorded as a known finding (known_findings.json) is reported as such: the
 	// finding is the program, any other program that deviates is a new violation
-	vKnown("C01.e2e."+name, true)
+	vKnown(vhFindingPrefix()+name, true)
 	vAssert("E2E.compiles-and-runs-or-panics-like-compiled", (err != nil) == twinPanicked)
 	same := len(got) == len(want)
 	for k := 0; same && k < len(want); k++ {
@@ -352,7 +420,7 @@ func vh_E2E() {
 			}
 		}
 	}
-	vKnown("C01.e2e."+name, true)
+	vKnown(vhFindingPrefix()+name, true)
 	vAssert("E2E.same-output-as-compiled", same)
 }
 
@@ -366,6 +434,8 @@ func vhEvalHost(buf *bytes.Buffer, rec *[]int, a, b int) *Interpreter {
 	for k, fn := range vhHost(rec, a, b) {
 		hostTab[k] = reflect.ValueOf(fn)
 	}
+	// host.Show is treated as the fmt print functions are: same list of interfaces to wrap operands for
+	i.mapTypes[hostTab["Show"]] = stdlib.MapTypes[reflect.ValueOf(fmt.Println)]
 	hostTab["Pair"] = reflect.ValueOf((*ht.Pair)(nil))
 	hostTab["Grid"] = reflect.ValueOf((*ht.Grid)(nil))
 	hostTab["Named"] = reflect.ValueOf((*ht.Named)(nil))
@@ -440,6 +510,6 @@ func itoa(n int) string {
 
 var vhRegistry = map[string]func(){"vh_E2E": vh_E2E, "vh_E2E_chunks": vh_E2E_chunks}
 
-var vhIntVars = map[string]*int{"vhProgIdx": &vhProgIdx, "vhScheme": &vhScheme, "vhInputBound": &vhInputBound, "vhMaxSteps": &vhMaxSteps}
+var vhIntVars = map[string]*int{"vhProgIdx": &vhProgIdx, "vhPropNum": &vhPropNum, "vhScheme": &vhScheme, "vhInputBound": &vhInputBound, "vhMaxSteps": &vhMaxSteps}
 
 var vhScenarios = map[string]func(map[string]string) bool{}
